@@ -58,6 +58,11 @@ class ParserKit:
             if isinstance(r, EnumV) and r.idx == 1:
                 self.punct_text[int(r.fields[0])] = c
         kinds -= {"WHITESPACE", "COMMENT", "EOF"}
+        # literal kinds whose LiteralKind variant the lexer never constructs cannot occur in a token table
+        lexmir = open(mirdump.dump("oq3_lexer"), encoding="utf-8").read()
+        for variant, kind in (("Byte", "BYTE"),):
+            if not re.search(r"= LiteralKind::%s\b" % variant, lexmir):
+                kinds.discard(kind)
         self.alphabet_names = sorted(kinds, key=lambda n: self.K[n])
         self.alphabet = [self.K[n] for n in self.alphabet_names]
         self.trivia = [self.K["WHITESPACE"], self.K["COMMENT"]]
